@@ -321,12 +321,21 @@ theorem plainGet_ok (p : Nat) (hck : T.ck p = .none) :
     · simp only [if_true]
       exact ⟨by first | rfl | trivial, InvOn.set hi _ _ hk.symm, hf.trans (Frame.set _ _ _ _)⟩
 
+theorem rootGetL_ok (v : Val) : OK T key (rootGetL T g key n v) (rootArgL T c n v) := by
+  unfold rootGetL rootArgL
+  have hp := e.par
+  split
+  · cases hg : g.par <;> cases hc : c.par <;> simp only [hg, hc] at hp ⊢
+    · exact fontSizeGet_ok e
+    · exact e.root
+  · exact OK.pure _ _
+
 theorem lengthGet_ok (p : Nat) (v : Val) (po : Bool) :
     OK T key (lengthGet T g key n p v po) (lengthPure T c n p v po) := by
   intro st h
   unfold lengthGet lengthPure
   obtain ⟨ea, ia, fa⟩ := fsGet_ok e v st h
-  obtain ⟨eb, ib, fb⟩ := rootGet_ok e v _ ia
+  obtain ⟨eb, ib, fb⟩ := rootGetL_ok e v _ ia
   simp only
   rw [ea, eb]
   exact ⟨by first | rfl | trivial, ib, fa.trans fb⟩
@@ -348,7 +357,7 @@ theorem computeGet_ok (p : Nat) (v : Val) :
     rw [es]
     split
     · obtain ⟨ea, ia, fa⟩ := fsGet_ok e v _ is
-      obtain ⟨eb, ib, fb⟩ := rootGet_ok e v _ ia
+      obtain ⟨eb, ib, fb⟩ := rootGetL_ok e v _ ia
       simp only
       rw [ea, eb]
       exact ⟨by first | rfl | trivial, ib, (fs.trans fa).trans fb⟩
@@ -381,7 +390,7 @@ theorem computeGet_ok (p : Nat) (v : Val) :
       exact ⟨by first | rfl | trivial, i1, f1⟩
     · intro st h
       obtain ⟨ea, ia, fa⟩ := fsGet_ok e v st h
-      obtain ⟨eb, ib, fb⟩ := rootGet_ok e v _ ia
+      obtain ⟨eb, ib, fb⟩ := rootGetL_ok e v _ ia
       simp only
       rw [ea, eb]
       exact ⟨by first | rfl | trivial, ib, fa.trans fb⟩
